@@ -108,11 +108,11 @@ def _density_case(case):
 def _dir(nadir_deg, az_deg, norm):
     th = math.radians(nadir_deg)
     az = math.radians(az_deg)
-    s = math.sin(th)
+    s = {0: 0.0, 90: 1.0, 180: 0.0}.get(nadir_deg, math.sin(th))     # exact at the axes: 90 degrees is exactly horizontal
     # exact values on the axes so that 90-degree azimuth steps are exact rotations
     ca = {0: 1.0, 90: 0.0, 180: -1.0, 270: 0.0}.get(az_deg, math.cos(az))
     sa = {0: 0.0, 90: 1.0, 180: 0.0, 270: -1.0}.get(az_deg, math.sin(az))
-    return np.array([s * ca, s * sa, -math.cos(th)]) * norm, (ca, sa)
+    return np.array([s * ca, s * sa, -{0: 1.0, 90: 0.0, 180: -1.0}.get(nadir_deg, math.cos(th))]) * norm, (ca, sa)
 
 
 def _chord_case(case):
